@@ -1,7 +1,7 @@
 (** LeafLiveP.v — hand-written model functions = the definitions tools/gen_leaf.py regenerates from the Rust
     source on every run (coq/Gen/LeafLive.v); see DESIGN.md §12.8. *)
 From Coq Require Import Floats.
-From Srtla Require Import Base Constants LeafLive.
+From Srtla Require Import Base Constants LeafLive LeafTac.
 From Srtla Require Keepalive Stall Rtt Route StallSel.
 From Coq Require Import ZifyBool.
 Local Open Scope Z_scope.
@@ -9,24 +9,18 @@ Local Open Scope Z_scope.
 (** ---- connection/mod.rs  <->  Model/Keepalive.v (C14), Model/Stall.v (C03 C04 C12 C13) ---- *)
 Lemma leaf_needs_keepalive_ok l now :
   Keepalive.needs_keepalive l now = leaf_needs_keepalive (Keepalive.l_connected l) (Keepalive.l_last_ka l) now.
-Proof. reflexivity. Qed.
+Proof. first [ solve [ reflexivity ] | leaf_auto ]. Qed.
 
 Lemma leaf_is_timed_out_keepalive_ok l now :
   Keepalive.is_timed_out l now =
   leaf_is_timed_out (Keepalive.l_connected l) (Keepalive.l_estab l) (Keepalive.l_grace l)
                     (Keepalive.l_last_recv l) (Keepalive.l_timeout l) now.
-Proof.
-  unfold Keepalive.is_timed_out, Keepalive.silent_too_long, leaf_is_timed_out. cbn zeta.
-  destruct (Keepalive.l_connected l), (Keepalive.l_last_recv l); reflexivity.
-Qed.
+Proof. first [ solve [ unfold Keepalive.is_timed_out, Keepalive.silent_too_long, leaf_is_timed_out; cbn zeta; destruct (Keepalive.l_connected l), (Keepalive.l_last_recv l); reflexivity ] | leaf_auto ]. Qed.
 
 Lemma leaf_is_timed_out_stall_ok a ct now :
   Stall.is_timed_out a ct now =
   leaf_is_timed_out (Stall.a_conn a) (Stall.a_estab a) (Stall.a_grace a) (Stall.a_lastrecv a) ct now.
-Proof.
-  unfold Stall.is_timed_out, leaf_is_timed_out. cbn zeta.
-  destruct (Stall.a_conn a), (Stall.a_lastrecv a); reflexivity.
-Qed.
+Proof. first [ solve [ unfold Stall.is_timed_out, leaf_is_timed_out; cbn zeta; destruct (Stall.a_conn a), (Stall.a_lastrecv a); reflexivity ] | leaf_auto ]. Qed.
 
 (** [stall_probe_due] as used by the duplicate-probe step of Model/Route.v (C04; same rule in C01) *)
 Lemma leaf_stall_probe_due_ok l :
@@ -34,13 +28,11 @@ Lemma leaf_stall_probe_due_ok l :
   let '(c', due) := leaf_stall_probe_due (Stall.g_probe (Stall.lg l)) in
   Stall.g_probe (Stall.lg (Route.probe_link l)) = c' /\
   (Stall.x_queued (Stall.lx (Route.probe_link l)) = Stall.x_queued (Stall.lx l) + (if due then 1 else 0)).
-Proof.
-  intros H. unfold leaf_stall_probe_due, Route.probe_link. rewrite H. cbn zeta.
-  destruct (STALL_PROBE_ONE_IN_N <=? Stall.g_probe (Stall.lg l) + 1); cbn; split; try reflexivity; lia.
-Qed.
+Proof. first [ solve [ intros H; unfold leaf_stall_probe_due, Route.probe_link; rewrite H; cbn zeta; destruct (STALL_PROBE_ONE_IN_N <=? Stall.g_probe (Stall.lg l) + 1); cbn; split; try reflexivity; lia ]
+              | (intros H; unfold Route.probe_link; rewrite H; leaf_auto) ]. Qed.
 
 
 (** ---- connection/rtt.rs  <->  Model/Rtt.v (C14) ---- *)
 Lemma leaf_needs_measurement_ok r conn est now :
   Rtt.needs_measurement r conn est now = leaf_needs_measurement (Rtt.r_waiting r) (Rtt.r_last_meas r) conn est now.
-Proof. reflexivity. Qed.
+Proof. first [ solve [ reflexivity ] | leaf_auto ]. Qed.
